@@ -77,6 +77,8 @@ def lsq_inputs(K="vec", baseline="vec", W="mat", lb="nonneg", ub="finite", bs="s
     urel = U_REL if K is not None else U_CAPTURE
     kw = {}
     kw["A"] = arr("A", S("F", "SRC"), U_GAIN, "GAIN")
+    if baseline is None and B_frame == "TOTAL":
+        B_frame = "LIGHT"          # without a baseline the total capture *is* the light-induced capture
     kw["B"] = arr("B", S("N", "F"), urel, B_frame, sign=("NONNEG" if nonneg_B else None))
     if K == "vec":
         kw["K"] = arr("K", S("F"), U_K)
